@@ -330,15 +330,9 @@ func runDeepGroup(family string, wrapped bool, tier string, hangCPU, envWall tim
 		close(lines)
 	}()
 	curDepth, curOp := 0, ""
-	// CPU one operation took at the previous (smaller) depth: an operation that is polynomial in the depth costs at
-	// most (200/64)^3 ~ 30 times more at the next depth, so the hang threshold is max(hangCPU, 100 x that cost)
+	// CPU the operation took at the previous (smaller) depth, for the report
 	lastCost := map[string]time.Duration{}
-	threshold := func(op string) time.Duration {
-		if t := 100 * lastCost[op]; t > hangCPU {
-			return t
-		}
-		return hangCPU
-	}
+	threshold := func(op string) time.Duration { return hangCPU }
 	var startCPU time.Duration
 	startWall := time.Now()
 	done := false
@@ -411,7 +405,8 @@ type deepReplay struct {
 
 // runDeep runs all groups (in parallel), confirms every failing group 4 more times and reports.
 func runDeep(c *checker, tier string, workers int, only *deepReplay) (stats map[string]any) {
-	hangCPU, envWall := 5*time.Second, 3*time.Minute
+	// every operation on these chains costs well under 2 s of CPU on the pinned tree (measured on a loaded machine)
+	hangCPU, envWall := 6*time.Second, 3*time.Minute
 	if tier == "thorough" {
 		hangCPU = 20 * time.Second
 	}
@@ -452,30 +447,38 @@ func runDeep(c *checker, tier string, workers int, only *deepReplay) (stats map[
 	ops, discarded, divergences := 0, 0, 0
 	maxCPU := 0.0
 	var results []deepResult
+	sig := func(x deepResult) string {
+		var s []string
+		for _, f := range x.Fails {
+			s = append(s, fmt.Sprintf("%d/%s/%s", f.Depth, f.Op, f.Kind))
+		}
+		return strings.Join(s, ",")
+	}
+	// confirm: every failing group runs 4 more times (all of them in one parallel batch) and must fail in the
+	// same operations in the same way
+	var again []group
+	var failing []int
 	for gi, r := range first {
 		ops += r.Ops
-		if r.MaxCPU > maxCPU && len(r.Fails) == 0 {
-			maxCPU = r.MaxCPU
-		}
 		results = append(results, r)
 		if r.Discard != "" {
 			discarded++
 			continue
 		}
 		if len(r.Fails) == 0 {
+			if r.MaxCPU > maxCPU {
+				maxCPU = r.MaxCPU
+			}
 			continue
 		}
-		// confirm: the same group 4 more times must fail in the same operations
-		again := run([]group{groups[gi], groups[gi], groups[gi], groups[gi]})
-		sig := func(x deepResult) string {
-			var s []string
-			for _, f := range x.Fails {
-				s = append(s, fmt.Sprintf("%d/%s/%s", f.Depth, f.Op, f.Kind))
-			}
-			return strings.Join(s, ",")
-		}
+		failing = append(failing, gi)
+		again = append(again, groups[gi], groups[gi], groups[gi], groups[gi])
+	}
+	confirm := run(again)
+	for fi, gi := range failing {
+		r := first[gi]
 		same := true
-		for _, a := range again {
+		for _, a := range confirm[4*fi : 4*fi+4] {
 			if a.Discard == "" && sig(a) != sig(r) {
 				same = false
 			}
@@ -511,4 +514,6 @@ func runDeep(c *checker, tier string, workers int, only *deepReplay) (stats map[
 	}
 }
 
-func hresViol(key, what string, r replay) hres.Viol { return hres.Viol{Key: key, What: what, Replay: r} }
+func hresViol(key, what string, r replay) hres.Viol {
+	return hres.Viol{Key: key, What: what, Replay: r}
+}
